@@ -249,8 +249,8 @@ func c05Specs() []*edt.Spec {
 func init() {
 	Registry["C05"] = func(c *Ctx) {
 		run := c.Run
-		run.Explanation = "DT-S: ScMinimalVartime is decided COMPLETELY by finite abstraction: its paths are extracted (loop unrolled) and every consistent abstract input — the 256 values of byte 31 × the three-way ordering of each little-endian 64-bit word against the corresponding word of L, with word 3 constrained by byte 31 through the numeric value of L — is evaluated on the atoms of the code and must give exactly 'value < L' (and false for any other length). Plus: structure of SetCanonicalBytes, the Montgomery and order constants in both radices against the math/big oracle, and the byte<->limb conversions of the scalar back ends as affine identities over the input bits (engine E-LIN: SetBytes uses all 256 bits at their weights, ToBytes is its inverse table, SetBytesWide hands lo + 2^(n·W)·hi = the 512-bit input to the Montgomery multiplications by R and RR)."
-		run.NotDecided = []string{"that Montgomery multiplication/reduction is correct mod L (functional exactness)", "overflow freedom of the 32-bit scalar back end (its Karatsuba form wraps on purpose and cancels algebraically)"}
+		run.Explanation = "DT-S: ScMinimalVartime is decided COMPLETELY by finite abstraction: its paths are extracted (loop unrolled) and every consistent abstract input — the 256 values of byte 31 × the three-way ordering of each little-endian 64-bit word against the corresponding word of L, with word 3 constrained by byte 31 through the numeric value of L — is evaluated on the atoms of the code and must give exactly 'value < L' (and false for any other length). Plus: structure of SetCanonicalBytes, the Montgomery and order constants in both radices against the math/big oracle, and the byte<->limb conversions of the scalar back ends as affine identities over the input bits (engine E-LIN: SetBytes uses all 256 bits at their weights, ToBytes is its inverse table, SetBytesWide hands lo + 2^(n·W)·hi = the 512-bit input to the Montgomery multiplications by R and RR; with monomial symbols: scalarMulInternal/squareInternal = the exact integer product (32-bit Karatsuba: per word modulo 2^64 with range argument), MontgomeryReduce: result·R ≡ input mod L with constL checked by value, Add/Sub ≡ a ± b modulo L up to exactly one 0/1 selector)."
+		run.NotDecided = append([]string{"that results of Add/Sub/MontgomeryReduce are FULLY reduced (< L): needs value-level bounds, argued not mechanised; the congruences mod L are decided"}, elin.MulNotDecided...)
 		run.Exhaustive = true
 		if !c.Preload(c.Configs()...) {
 			return
@@ -271,6 +271,11 @@ func init() {
 				if id == c.Configs()[0] {
 					run.Sample(map[string]any{"function": s.Func, "paths": r.Paths, "classes": r.ClassCount})
 				}
+			}
+			// scalarMulInternal / squareInternal (exact integer product), MontgomeryReduce (r·R ≡ input mod L), Add/Sub (≡ a ± b mod L up to one selector) by E-LIN
+			mr := elin.CheckMul(run, p, "MUL")
+			if id == c.Configs()[0] {
+				run.Sample(map[string]any{"config": id, "MUL functions": mr.Functions, "MUL obligations": mr.Obligations})
 			}
 			lr := elin.CheckScalarPack(run, p, "LIN")
 			if id == c.Configs()[0] {
